@@ -216,6 +216,12 @@ def lexQuotedIdent (env : Env) (c : Nat) (cs : List Nat) : Res :=
     | some (p, r) => .ok (mkWord env p (some c), r)
     | none => .error (.err ⟨str "Expected close delimiter '" ++ [qe] ++ str "' before EOF.", c :: cs⟩)
 
+/-- 931-938: the optional sign of an exponent, read on the cloned iterator -/
+def expSign (r : List Nat) : List Nat :=
+  match r with
+  | sg :: _ => if sg = 43 ∨ sg = 45 then [sg] else []
+  | [] => []
+
 /-- 925-953: returns `exponent_part` (non-empty as soon as an `e`/`E` was seen, even when the
 exponent is then discarded), the number text and the input left -/
 def scanExponent (s3 r3 : List Nat) : List Nat × List Nat × List Nat :=
@@ -223,12 +229,8 @@ def scanExponent (s3 r3 : List Nat) : List Nat × List Nat × List Nat :=
   | [] => ([], s3, r3)
   | e :: r =>
     if e = 101 ∨ e = 69 then
-      -- 931-938: optional sign, on the cloned iterator
-      let sign : List Nat := match r with
-        | sg :: _ => if sg = 43 ∨ sg = 45 then [sg] else []
-        | [] => []
-      let part := e :: sign
-      let r' := r.drop sign.length
+      let part := e :: expSign r
+      let r' := r.drop (expSign r).length
       match r' with
       | d :: _ =>
         if isAsciiDigit d then
